@@ -917,6 +917,30 @@ def m_index(ex, st, call, args):
     return _ret(st, ("&", ("index", ("deref", ex.canon(st, r)), i)))
 
 
+def _set_behind(ex, st, r, val):
+    if r[0] == "ref":
+        ex.store(st, r[1], val, log=False)
+    else:
+        st.mem[("S", r)] = val
+
+
+def m_swap(ex, st, call, args):
+    """core::mem::swap(&mut a, &mut b)"""
+    a, b = args
+    va, vb = ex.canon(st, ex.deref_val(st, a)), ex.canon(st, ex.deref_val(st, b))
+    _set_behind(ex, st, a, vb)
+    _set_behind(ex, st, b, va)
+    return _ret(st, ("tuple", ()))
+
+
+def m_replace(ex, st, call, args):
+    """core::mem::replace(&mut a, v) -> old a"""
+    a, v = args
+    old = ex.canon(st, ex.deref_val(st, a))
+    _set_behind(ex, st, a, ex.canon(st, v))
+    return _ret(st, old)
+
+
 def m_deref(ex, st, call, args):
     # Vec<T> -> [T], String -> str, Box: same storage
     head = ty_head(call.self_ty or "")
@@ -1228,6 +1252,8 @@ def m_ord_reverse(ex, st, call, args):
 
 
 DEFAULT_MODELS = {
+    "core::mem::swap": m_swap,
+    "core::mem::replace": m_replace,
     "core::cmp::PartialOrd::lt": m_cmp("lt"),
     "core::cmp::PartialOrd::le": m_cmp("le"),
     "core::cmp::PartialOrd::gt": m_cmp("lt", flip=True),
